@@ -5,8 +5,9 @@
    grammar's reading of the body, [handle] the code's response and the documents that
    reach the store, [store_ok] which indexes accept their batch.  [handle_prefix] is
    the code before the fix. *)
-From SigM Require Import Base Bulk BulkPool.
-From SigP Require Import BaseProofs BulkProofs BulkPoolProofs.
+From Coq Require Import Permutation.
+From SigM Require Import Base Bulk BulkPool BulkAlias.
+From SigP Require Import BaseProofs BulkProofs BulkPoolProofs BulkAliasProofs.
 Open Scope N_scope.
 
 (* ---- one item per action, in request order: the items are, position by position,
@@ -189,4 +190,114 @@ Example C15_guard_disciplined_satisfiable :
   forallb disciplined_ev h_mixed = true /\
   p_free (run_hist p_init h_mixed) = [9%N] /\
   r_stored (handle_after h_mixed all_ok w_good) = [(1, 1); (2, 2)].
+Proof. vm_compute. repeat split; reflexivity. Qed.
+
+(* ---- index names may be ALIASES (SigM.BulkAlias).  A request files the documents of each
+   group (index name as written in the action) in the segment store of the stream of the
+   RESOLVED name; a store is looked up by stream and gets its table name when it is created;
+   a query on a name reads the stores whose table name is what the name resolves to.
+   [h] ranges over ALL histories of alias definitions, ingest requests (any groups, any
+   order) and store removals; [order] over every grouping of the stored documents in any
+   order (the group loop of HandleBulkBody runs in Go map order). ---- *)
+
+(* every segment store is filed under the name its stream was derived from *)
+Theorem C15_alias_filing_invariant : forall h,
+  filed_ok (snd (run_ahist a_init h)) = true.
+Proof. exact filing_invariant_init. Qed.
+Print Assumptions C15_alias_filing_invariant.
+
+(* a request adds exactly its documents to what a query on ANY name finds: those of the groups
+   whose name resolves to the same index as the queried name; nothing is lost, duplicated or
+   filed where the query does not look *)
+Theorem C15_alias_request_conserves_search : forall al ss gs name id,
+  filed_ok ss = true ->
+  occ id (searchable al (run_batches al ss gs) name) =
+  (occ id (searchable al ss name) + occ id (docs_for al gs name))%nat.
+Proof. exact request_conserves_search. Qed.
+Print Assumptions C15_alias_request_conserves_search.
+
+(* the groups HandleBulkBody forms hold exactly the documents it accepted *)
+Theorem C15_bulk_groups_partition : forall so b,
+  Permutation (ungroup (bulk_groups so b)) (r_stored (handle so b)).
+Proof. exact bulk_groups_order. Qed.
+Print Assumptions C15_bulk_groups_partition.
+
+(* created iff searchable exactly once, by a query on ANY name that stands for the same index
+   as the name written in the action (the index itself, the alias used, another alias), and by
+   no other query; failed items are found by no query.  Guards: the store calls succeed, the
+   documents of the request are distinct and new. *)
+Theorem C15_created_iff_searchable_through_alias_guarded : forall h so b order,
+  let A := actions (body_lines b) in
+  let r := handle so b in
+  let al := fst (run_ahist a_init h) in
+  let ss := snd (run_ahist a_init h) in
+  let ss' := run_batches al ss order in
+  Permutation (ungroup order) (r_stored r) ->
+  stores_ok so A = true ->
+  NoDup (map snd (flat_map act_doc A)) ->
+  (forall k t, In k (flat_map act_doc A) -> occ (snd k) (table_docs ss t) = 0%nat) ->
+  forall i a sti, nth_error A i = Some a -> nth_error (r_items r) i = Some sti ->
+    (sti = 201 -> exists idx id, act_doc a = [(idx, id)] /\
+       forall name, occ id (searchable al ss' name) =
+                    if resolve al name =? resolve al idx then 1%nat else 0%nat) /\
+    (sti <> 201 -> forall k, In k (act_doc a) ->
+       forall name, occ (snd k) (searchable al ss' name) = 0%nat).
+Proof. exact created_iff_searchable_through_alias. Qed.
+Print Assumptions C15_created_iff_searchable_through_alias_guarded.
+
+(* a created item written through an alias: found once through the alias, once under the index
+   the alias points to, and nothing is filed under the alias name *)
+Theorem C15_created_through_alias_found_under_index : forall h so b order,
+  let A := actions (body_lines b) in
+  let r := handle so b in
+  let al := fst (run_ahist a_init h) in
+  let ss := snd (run_ahist a_init h) in
+  let ss' := run_batches al ss order in
+  Permutation (ungroup order) (r_stored r) ->
+  stores_ok so A = true ->
+  NoDup (map snd (flat_map act_doc A)) ->
+  (forall k t, In k (flat_map act_doc A) -> occ (snd k) (table_docs ss t) = 0%nat) ->
+  forall i l d real,
+    nth_error A i = Some (AWrite l (Some d)) -> nth_error (r_items r) i = Some 201 ->
+    alias_of al (l_idx l) = Some real -> alias_of al real = None ->
+    occ (l_id d) (searchable al ss' (l_idx l)) = 1%nat /\
+    occ (l_id d) (searchable al ss' real) = 1%nat /\
+    occ (l_id d) (table_docs ss' (l_idx l)) = 0%nat.
+Proof. exact created_through_alias_found_under_index. Qed.
+Print Assumptions C15_created_through_alias_found_under_index.
+
+(* the filing invariant is what carries the two theorems above: from a state with ONE store
+   filed under another name than its stream's (the store of the index's stream created under
+   the alias name) the item is 201, errors = false, and the document is found neither through
+   the alias nor under the index; documents written directly to the index afterwards are lost
+   to queries as well *)
+Theorem C15_alias_misfiled_store_refuted : exists al ss b idx real id,
+  filed_ok ss = false /\
+  alias_of al idx = Some real /\ alias_of al real = None /\
+  flat_map act_doc (actions (body_lines b)) = [(idx, id)] /\
+  r_items (handle all_ok b) = [201] /\ r_errors (handle all_ok b) = false /\
+  occ id (searchable al (bulk_after (al, ss) all_ok b) idx) = 0%nat /\
+  occ id (searchable al (bulk_after (al, ss) all_ok b) real) = 0%nat /\
+  occ id (table_docs (bulk_after (al, ss) all_ok b) idx) = 1%nat.
+Proof. exact misfiled_store_refuted. Qed.
+Print Assumptions C15_alias_misfiled_store_refuted.
+
+Theorem C15_alias_misfiled_store_loses_direct_writes : exists al ss b real id,
+  filed_ok ss = false /\ alias_of al real = None /\
+  flat_map act_doc (actions (body_lines b)) = [(real, id)] /\
+  r_items (handle all_ok b) = [201] /\
+  occ id (searchable al (bulk_after (al, ss) all_ok b) real) = 0%nat.
+Proof. exact misfiled_store_loses_direct_writes. Qed.
+Print Assumptions C15_alias_misfiled_store_loses_direct_writes.
+
+(* the guards are satisfiable: index written first, aliases defined afterwards (one for an index
+   whose store is then removed), one body through both aliases and an index name *)
+Example C15_alias_history_satisfiable :
+  filed_ok (snd (run_ahist a_init h_alias)) = true /\
+  r_items (handle all_ok w_alias_mixed) = [201; 201; 201; 400] /\
+  (let s := run_ahist a_init h_alias in
+   let ss' := bulk_after s all_ok w_alias_mixed in
+   searchable (fst s) ss' 70 = [900; 901; 1; 2] /\ searchable (fst s) ss' 80 = [900; 901; 1; 2] /\
+   searchable (fst s) ss' 71 = [3] /\ searchable (fst s) ss' 81 = [3] /\
+   table_docs ss' 70 = [] /\ table_docs ss' 71 = [] /\ filed_ok ss' = true).
 Proof. vm_compute. repeat split; reflexivity. Qed.
